@@ -3,7 +3,8 @@
 Bounded exhaustive enumeration of (subcommand tree x input x channel).  Every case builds FRESH real parsers
 (level by level), delivers the input through one channel (parse_args with --config FILE / --config STRING,
 parse_object, parse_string, parse_env reading os.environ, parse_env(env=mapping), os.environ with
-default_env=True) and compares the complete result with a small reference model:
+default_env=True - or with environment parsing switched on / off for the finished tree in one of the other ways,
+see ENV_MODES) and compares the complete result with a small reference model:
 
   selection at one level  = name on argv, else the name given by the highest-priority source that names one
                             (config, environment variable, APP_CONFIG, default config file), else the first
@@ -49,6 +50,27 @@ ENV_CH = ("en", "ed")  # parse_env() reading os.environ / parse_env(env=mapping)
 ALPHA = ("abcd", "pqrs", "uvwt")
 DEST = "subcommand"
 PROG = "app"
+# Ways of switching environment parsing on (or off) for a tree other than default_env=True in the constructor of the
+# root parser (= "envmode" absent).  The root is always the only parser that is told; every level must follow.
+#   prop      tree built with the environment off, then `root.default_env = True` assigned to the finished tree
+#   call      tree built with the environment off, the parse call gets env=True
+#   osvar     JSONARGPARSE_DEFAULT_ENV=true in the process environment (documented to take precedence)
+#   prop-off  tree built with default_env=True, then `root.default_env = False` assigned to the finished tree
+#   call-off  tree built with default_env=True, the parse call gets env=False
+#   osvar-off tree built with default_env=True while JSONARGPARSE_DEFAULT_ENV=false
+# In the "-off" modes the variables are present but must be ignored at every level (model: no environment).
+ENV_MODES = ("prop", "call", "osvar", "prop-off", "call-off", "osvar-off")
+OSVAR = "JSONARGPARSE_DEFAULT_ENV"
+
+
+def env_mode(spec):
+    return spec.get("envmode") or None
+
+
+def env_enabled(spec):
+    """Environment parsing is in force for parse_args / parse_object / parse_string on a tree with this spec."""
+    m = env_mode(spec)
+    return bool(spec.get("denv")) and not (m or "").endswith("-off")
 
 
 # ------------------------------------------------------------------------------------------------
@@ -58,7 +80,10 @@ PROG = "app"
 #         "cfgopt": "all" | "root" | "none"   (which parsers have a --config option),
 #         "glob": bool                         (parsers that have subcommands also have own options x, y, z),
 #         "dcf": None | {"at": "root" | "subs" | "all", "kind": "own" | "first" | "last" | "name_last"},
-#         "denv": bool                         (default_env=True)}
+#         "denv": bool                         (environment variables are present in os.environ for a channel other
+#                                               than parse_env; without "envmode": default_env=True at the root),
+#         "envmode": absent | one of ENV_MODES (HOW environment parsing is switched on - or off again - for the
+#                                               whole tree, see ENV_MODES; only together with "denv")}
 #
 # Names: first-level subcommands are a, b, c, d.  Below the FIRST child of any parser the same alphabet is used
 # again (so nested names coincide with outer names: path a.a, a.b), below other children the alphabet of that
@@ -244,7 +269,7 @@ def model(T, i):
     the chosen path), "path", "nontrivial", "competing", "tags" (input classes of the documented open findings)}."""
     argv = i.get("argv", [])
     cn, cs = i.get("cn", {}), set(i.get("cs", []))
-    env_active = i["ch"] in ENV_CH or bool(T.spec.get("denv"))
+    env_active = i["ch"] in ENV_CH or env_enabled(T.spec)
     en = i.get("en", {}) if env_active else {}
     es = set(i.get("es", [])) if env_active else set()
     ax = set(i.get("ax", []))
@@ -254,7 +279,8 @@ def model(T, i):
         parts = split(p)
         for k in range(len(parts) + 1):
             touched.add(".".join(parts[:k]))
-    info = {"hows": [], "path": [], "nontrivial": False, "competing": False, "tags": set(), "scopes": {}}
+    info = {"hows": [], "path": [], "nontrivial": False, "competing": False, "tags": set(), "scopes": {}, "envdepth": -1}
+    es_present = set(i.get("es", []))  # variables that exist, whether or not environment parsing is in force
 
     def options(n, out):
         for o in OPTS if n.has_opts else ():
@@ -278,6 +304,8 @@ def model(T, i):
     def solve(n, with_env_mapping):
         out = {}
         options(n, out)
+        if n.key in es_present and n.has_opts:
+            info["envdepth"] = max(info["envdepth"], n.depth)
         if not n.children:
             return out
         ckey = lambda c: n.key + "." + c if n.key else c  # noqa: E731
@@ -388,7 +416,9 @@ def build(T, J, scratch):
         if doc is not None:
             kw["default_config_files"] = [doc_file(scratch, "dcf", doc)]
         if n.depth == 0:
-            p = J.ArgumentParser(prog=PROG, exit_on_error=False, default_env=bool(T.spec.get("denv")), **kw)
+            mode = env_mode(T.spec)
+            denv = bool(T.spec.get("denv")) if mode is None else mode.endswith("-off")
+            p = J.ArgumentParser(prog=PROG, exit_on_error=False, default_env=denv, **kw)
         else:
             p = J.ArgumentParser(exit_on_error=False, **kw)
         if n.has_config:
@@ -405,6 +435,8 @@ def build(T, J, scratch):
             sc = parsers[n.key].add_subcommands(required=n.required, dest=DEST)
             for c in n.child_nodes:
                 sc.add_subcommand(c.np[-1], make(c))
+    if env_mode(T.spec) in ("prop", "prop-off"):  # the finished tree is told through the root's property
+        parsers[""].default_env = env_mode(T.spec) == "prop"
     return parsers
 
 
@@ -435,22 +467,27 @@ def execute(T, i, J, scratch):
     """Run input i on fresh parsers.  Returns the outcome dict of mc.util.outcome."""
     from mc.util import outcome
 
-    parsers = build(T, J, scratch)
-    root = parsers[""]
     ch = i["ch"]
-    env = environment(T, i)
-    doc = config_doc(T, i)
+    mode = env_mode(T.spec)
+    assert mode is None or (mode in ENV_MODES and ch not in ENV_CH and T.spec.get("denv")), "envmode needs a non-env channel"
+    kw = {"env": mode == "call"} if mode in ("call", "call-off") else {}
     saved = dict(os.environ)
     try:
+        if mode in ("osvar", "osvar-off"):  # read by every parser when it is created
+            os.environ[OSVAR] = "true" if mode == "osvar" else "false"
+        parsers = build(T, J, scratch)
+        root = parsers[""]
+        env = environment(T, i)
+        doc = config_doc(T, i)
         if ch == "ed":  # the environment as an explicit mapping; os.environ stays clean
             return outcome(root.parse_env, dict(env))
         os.environ.update(env)
         if ch == "en":
             return outcome(root.parse_env)
         if ch == "ob":
-            return outcome(root.parse_object, copy.deepcopy(doc if doc is not None else {}))
+            return outcome(root.parse_object, copy.deepcopy(doc if doc is not None else {}), **kw)
         if ch == "st":
-            return outcome(root.parse_string, json.dumps(doc if doc is not None else {}))
+            return outcome(root.parse_string, json.dumps(doc if doc is not None else {}), **kw)
         argv = i.get("argv", [])
         ax = set(i.get("ax", []))
         toks = []
@@ -464,7 +501,7 @@ def execute(T, i, J, scratch):
                 toks.append("--x=" + tok("A", ".".join(argv[:k]), "x"))
             if k < len(argv):
                 toks.append(argv[k])
-        return outcome(root.parse_args, toks)
+        return outcome(root.parse_args, toks, **kw)
     finally:
         if dict(os.environ) != saved:
             os.environ.clear()
@@ -664,6 +701,8 @@ def judge(case):
         "nontrivial": m["nontrivial"],
         "competing": m["competing"],
         "tags": m["tags"],
+        "envmode": env_mode(T.spec),
+        "envdepth": m["envdepth"],
     }
     return devs, summary
 
@@ -1006,9 +1045,12 @@ def cases_for_shape(shape, variant, families, tier):
     optional = [False, False, False]
     uniform = [v for v in vectors if len(set(v[: depth_of(shape)])) == 1]
     # environment variable names in the help do not depend on default config files or required flags
-    out = [("help", {"t": dict(variant, shape=shape, req=v), "i": {"ch": "help"}}) for v in vectors[:1] if not variant["dcf"]]
+    plain = not variant["dcf"] and not env_mode(variant)
+    out = [("help", {"t": dict(variant, shape=shape, req=v), "i": {"ch": "help"}}) for v in vectors[:1] if plain]
     for fam, i in inputs_for_shape(shape, variant, families, tier):
         denv = bool(i.get("en") or i.get("es")) and i["ch"] not in ENV_CH
+        if env_mode(variant) and not denv:
+            continue  # the mode only matters where variables meet parse_args / parse_object
         base = dict(variant, shape=shape, denv=denv)
         use = vectors
         if tier == "quick" or fam == "env":
@@ -1052,6 +1094,9 @@ def case_groups(tier):
     for shape in SMALL if tier == "quick" else small:
         for variant in dcf_variants(shape):
             yield cases_for_shape(shape, variant, ["dcf"], tier)
+    for shape in SMALL if tier == "quick" else small:  # the env family once more under every other way of
+        for mode in ENV_MODES:  # switching environment parsing on / off for the tree
+            yield cases_for_shape(shape, dict(BASE, envmode=mode), ["env"], tier)
 
 
 def enumerate_cases(tier):
@@ -1081,6 +1126,13 @@ def explore(ctx):
                     ctx.count("competing-information-present")
                 for t in s["tags"]:
                     ctx.count("input-class:" + t)
+                if s.get("envmode"):
+                    ctx.count("envmode:" + s["envmode"])
+                    if s["kind"] == "ok" and s["model_ok"] and s["depth"] >= 2 and s["envdepth"] >= 2:
+                        # a successful nested selection whose innermost parser has variables in the environment:
+                        # there the mode must have reached (or been withdrawn from) every level
+                        ctx.count("envmode-decides-nested-settings:" + s["envmode"] + ":" + "+".join(s["hows"][:2]))
+                        ctx.count("envmode-decides-nested-settings:" + s["envmode"])
             for sig, detail in devs:
                 ctx.deviation(sig, case, detail)
 
@@ -1122,6 +1174,7 @@ def explore(ctx):
         trees=len(trees),
         bounds={
             "tier": ctx.tier,
+            "env_modes": "default_env=True at the root on every shape; " + ", ".join(ENV_MODES) + " on the small shapes",
             "shapes": len(shapes(ctx.tier)),
             "max_depth": 2 if ctx.quick else 3,
             "max_width": 3 if ctx.quick else 4,
@@ -1153,3 +1206,11 @@ def explore(ctx):
     ctx.require(c.get("depth:2", 0) > 100, "nested selections reached")
     ctx.require(c.get("competing-information-present", 0) > 100, "inputs with information for a non-chosen subcommand occur")
     ctx.require(c.get("outcome:help", 0) > 10, "environment variable names cross-checked against help output")
+    for mode in ENV_MODES:
+        ctx.require(c.get("envmode:" + mode, 0) > 100, f"environment switched by mode {mode!r} exercised")
+        ctx.require(
+            c.get("envmode-decides-nested-settings:" + mode, 0) > 10
+            and c.get("envmode-decides-nested-settings:" + mode + ":argv+argv", 0) > 0,
+            f"mode {mode!r}: successful nested selections (also with both levels named on argv) whose innermost parser "
+            "has environment variables",
+        )
